@@ -76,6 +76,10 @@ def chosen(rnd, tier):
         cases.append({'others': [], 'parts': {'major': 2, 'minor': 0, 'software': list(b'OpenSSH_9.6' + bytes([ctl])), 'comments': list(b'')}, 'eol': 'crlf' if k % 2 else 'lf'})
         cases.append({'others': [list(b'hello')], 'parts': {'major': 2, 'minor': 0, 'software': list(b'dropbear_2022.83'), 'comments': list(b'note' + bytes([ctl]))}, 'eol': 'lf' if k % 2 else 'crlf'})
         cases.append({'others': [], 'parts': {'major': 1, 'minor': 99, 'software': list(b'Srv_1.0' + bytes([ctl, ctl])), 'comments': list(b'')}, 'eol': 'crlf'})
+    # other lines that repeat (the frame of a notice, separators, a message sent twice): every line sent is a line reported, as often as it was sent
+    for k, oth in enumerate(([b'*****', b'* authorised use only *', b'*****'], [b'--', b'part one', b'--', b'part two', b'--'], [b'same line', b'same line'],
+                             [b'hello', b'', b'hello', b''], [b'x', b'y', b'x', b'y', b'x'])):
+        cases.append({'others': [list(o) for o in oth], 'parts': {'major': 2, 'minor': 0, 'software': list(b'OpenSSH_7.%d' % k), 'comments': list(b'')}, 'eol': 'crlf' if k % 2 else 'lf'})
     cases.append({'others': [], 'parts': {'major': 2, 'minor': 0, 'software': list(b'OpenSSH_8.9p1'), 'comments': list(b' '.join([b'word%d' % i for i in range(60)]))}, 'eol': 'crlf'})
     cases.append({'others': [list(b'x' * 254), list(b'y' * 255), list(b'z' * 257)], 'parts': {'major': 2, 'minor': 0, 'software': list(b'dropbear_2022.83'), 'comments': list(b'')}, 'eol': 'crlf'})
     return cases
@@ -201,8 +205,11 @@ def run(tier):
     rest = [x for x in cli if not x[0]['header'] and x[0]['banner']['valid']]
     pick = rnd.sample(with_hdr, min(len(with_hdr), ncli // 2)) + rnd.sample(nonascii, min(len(nonascii), ncli // 6))
     pick += rnd.sample(rest, min(len(rest), ncli - len(pick)))
+    # (exchanges whose other lines repeat always go through the CLI: the report is where a repeated line could get lost)
+    pick += [x for x in with_hdr if len(set(x[1]['expected']['header'])) < len(x[1]['expected']['header']) and x not in pick]
     cli_leg(ck, pick)
     client_cli_leg(ck, pick)
+    twins_leg(ck, rnd.sample(nonascii, min(len(nonascii), 8 if tier == 'quick' else 60)))
     ck.sample({'wire_text': bs(exps[7]['wire']).decode('latin-1'), 'expected_software': bs(exps[7]['banner']['software']).decode('latin-1'),
                'expected_header': [bs(h).decode('latin-1') for h in exps[7]['header']]})
     ck.cov['rule'] = ('TLC enumerates the grammar universe {1.5,1.99,2.0,2.1} x 11 software tokens x 5 comment forms x {CRLF,LF} x 0..2 header lines over 6 x injected '
@@ -250,6 +257,56 @@ def client_cli_leg(ck, cli):
         else:
             ck.cov['traces_validated_against_impl'] += 1
             ck.nontrivial(('client-cli', bs(e['wire'])))
+
+
+def twins_leg(ck, cli):
+    """Two servers audited in one run (-T, one worker) whose identification strings are shown alike: one carries bytes outside printable ASCII
+    (shown as '?'), the other the very characters shown - a conforming string with literal question marks.  Each is judged on the bytes it
+    sent: the first is flagged as non-conforming, the second is not, in either order."""
+    from checks import multi
+    kx = {'kex': ['curve25519-sha256'], 'key': ['ssh-ed25519'], 'enc': ['aes128-ctr'], 'mac': ['hmac-sha2-256'], 'comp': ['none']}
+    scs, meta = [], []
+    for e, replay in cli:
+        wire_b = bs(e['wire'])
+        lines = wire_b.split(b'\n')
+        eol = b'\r\n' if lines[0].endswith(b'\r') or (len(lines) > 1 and wire_b.endswith(b'\r\n')) else b'\n'
+        body = [l.rstrip(b'\r') if eol == b'\r\n' else l for l in lines[:-1]]
+        twin = replay['expected']['rendered'].encode('ascii')
+        if twin == body[-1] or '?' not in replay['expected']['rendered']:
+            continue
+        bad = peers.ServerCfg(banner=body[-1], prebanner=body[:-1], eol=eol, kexinit=kx, hostkeys={'ssh-ed25519': peers.ed25519_blob()})
+        good = peers.ServerCfg(banner=twin, prebanner=body[:-1], eol=eol, kexinit=kx, hostkeys={'ssh-ed25519': peers.ed25519_blob()})
+        for order in (('bad', 'good'), ('good', 'bad'), ('bad', 'good', 'bad')):
+            sc, labels = multi.scenario([('server', bad if o == 'bad' else good) for o in order], 1, None, json_out=False, extra=['-2'])
+            scs.append(sc)
+            meta.append((order, labels, replay))
+    for (order, labels, replay), sc, r in zip(meta, scs, runner.run_many(scs)):
+        ck.evaluated()
+        if r.get('harness_error') or r.get('hang'):
+            raise common.Machinery('twin banner run failed: %r' % (r.get('harness_error') or 'hang'))
+        rp = dict(replay, order=order, exit=r['exit'], stdout=r['stdout'][-2500:])
+        blocks = {}
+        for b in multi.split_text(r['stdout']):
+            lab = multi.label_of_block(b, labels)
+            if lab:
+                blocks[lab] = b
+        ok = True
+        for o, lab in zip(order, labels):
+            if lab not in blocks:
+                ck.violation('twin-banners-block-missing', 'no report for target %s (%s)' % (lab, o), rp)
+                ok = False
+                break
+            tx = report.parse_text(multi.strip_target_line(blocks[lab]))
+            flagged = any('non-printable ASCII' in f for f in tx['gen'].get('_flags', []))
+            if tx['gen'].get('banner') != replay['expected']['rendered'] or flagged != (o == 'bad'):
+                ck.violation('twin-banners-verdict-carried-over sent=%s' % o, 'targets %r in one run: the %s identification string is shown as %r and %s'
+                             % (order, 'non-conforming' if o == 'bad' else 'conforming (literal question marks)', tx['gen'].get('banner'),
+                                'flagged as containing non-printable characters' if flagged else 'not flagged'), rp)
+                ok = False
+                break
+        if ok:
+            ck.cov['traces_validated_against_impl'] += 1
+            ck.nontrivial(('twins', order, replay['wire']))
 
 
 def cli_leg(ck, cli):
